@@ -1,12 +1,12 @@
 (* AllNoPanic.v — C01 for the complete built-in set: after the arity check no arm of
-   EvalAll.builtin_all panics, for EVERY oracle, under three named side conditions that concern
-   things outside the transcription:
+   EvalAll.builtin_all panics, for EVERY oracle, under two named side conditions that concern
+   things outside the transcription (the third, time_now's clock, is gone: repo fix bf56486 made the arm
+   total and the model followed):
      percentile   AggPanics.args_ok: p is a genuine double and the list has at most 2^53 elements
                   (spec_float has non-canonical inhabitants no f64 corresponds to);
      format       the display of the numbers among the arguments does not overflow its i32 / i64
                   arithmetic (DisplayNum.v; holds for every genuine double when floor(log10 a) is
                   within +-2000: display_safe_of_valid, from C20's display_no_panic);
-     time_now     the clock is not before 1970-01-01 (duration_since(UNIX_EPOCH).unwrap()).
    Everything else is unconditional: every args[i], `&args[1..]`, the dyn-fmt state machine incl. its
    `unreachable_unchecked()` arm.  Also: `^` through the oracle's powf never panics. *)
 From Coq Require Import String Ascii List ZArith Bool Lia Floats.SpecFloat.
@@ -95,11 +95,9 @@ Section Arms.
   Proof.
     intros args H. unfold bi_print. apply obind_np; [apply print_line_np; exact H|]. discriminate.
   Qed.
-  Lemma time_now_np : forall args, o_now o <> None -> bi_time_now o args <> Panic.
-  Proof. intros args H. unfold bi_time_now. destruct (o_now o); [discriminate|contradiction]. Qed.
-  (* ... and the arm does panic when the clock is before the epoch *)
-  Lemma time_now_panics_before_epoch : forall args, o_now o = None -> bi_time_now o args = Panic.
-  Proof. intros args H. unfold bi_time_now. rewrite H. reflexivity. Qed.
+  (* total since repo fix bf56486 (before it: Panic when the clock read a time before the epoch) *)
+  Lemma time_now_np : forall args, bi_time_now o args <> Panic.
+  Proof. intros args. unfold bi_time_now. discriminate. Qed.
 End Arms.
 
 (* ---------------- the arms of builtin_full without a no-panic lemma so far ---------------- *)
@@ -263,10 +261,9 @@ Theorem builtin_all_no_panic_gen : forall o cb b args st,
   cb_safe cb -> can_accept (builtin_arity b) (length args) = true ->
   (b = B_percentile -> bi_percentile args <> Panic) ->
   (b = B_format -> format_display_safe o args) ->
-  (b = B_time_now -> o_now o <> None) ->
   fst (builtin_all o cb b args st) <> Panic.
 Proof.
-  intros o cb b args st Hcb Ha Hp Hf Ht.
+  intros o cb b args st Hcb Ha Hp Hf.
   destruct b; cbn [builtin_all];
     try (apply builtin_full_no_panic_gen; [exact Hcb|exact Ha|first [exact Hp|discriminate]]);
     unfold pure_bi; cbn [fst];
@@ -277,24 +274,23 @@ Proof.
   - apply to_string_all_np; lia.
   - apply format_np; [lia|exact (Hf eq_refl)].
   - apply print_np; lia.
-  - apply time_now_np. exact (Ht eq_refl).
+  - apply time_now_np.
 Qed.
 
 Theorem builtin_all_no_panic : forall o cb b args st,
   cb_safe cb -> can_accept (builtin_arity b) (length args) = true ->
   (b = B_percentile -> args_ok args) ->
   (b = B_format -> format_display_safe o args) ->
-  (b = B_time_now -> o_now o <> None) ->
   fst (builtin_all o cb b args st) <> Panic.
 Proof.
-  intros o cb b args st Hcb Ha Hp Hf Ht. apply builtin_all_no_panic_gen; try assumption.
+  intros o cb b args st Hcb Ha Hp Hf. apply builtin_all_no_panic_gen; try assumption.
   intros ->. exact (agg_np APercentile args Ha (Hp eq_refl)).
 Qed.
 
-(* the three side conditions are needed: each arm does panic in the model without its condition *)
-Example time_now_needs_its_clock : forall o cb st,
-  o_now o = None -> fst (builtin_all o cb B_time_now [] st) = Panic.
-Proof. intros o cb st H. cbn. unfold bi_time_now. rewrite H. reflexivity. Qed.
+(* time_now is total for every clock reading (repo fix bf56486; the model's former None arm is gone) *)
+Example time_now_total : forall o cb st,
+  fst (builtin_all o cb B_time_now [] st) = Ok (VNum (o_now o)).
+Proof. reflexivity. Qed.
 
 (* `^` through the oracle's powf *)
 Theorem binop_all_no_panic : forall o cb op l r st,
@@ -325,10 +321,10 @@ Qed.
 
 Theorem builtin_all_no_panic_genuine : forall o cb b args st,
   cb_safe cb -> can_accept (builtin_arity b) (length args) = true ->
-  log10_in_range o -> o_now o <> None ->
+  log10_in_range o ->
   args_ok args -> Forall (nums_valid o) (skipn 1 args) ->
   fst (builtin_all o cb b args st) <> Panic.
 Proof.
-  intros o cb b args st Hcb Ha Hl Hn Hok Hv.
+  intros o cb b args st Hcb Ha Hl Hok Hv.
   apply builtin_all_no_panic; auto. intros _. apply display_safe_of_valid; assumption.
 Qed.
